@@ -14,6 +14,7 @@ https://github.com/MassimoLauria/cnfgen.git
 
 import os
 import sys
+import random
 import argparse
 import subprocess
 import tempfile
@@ -225,21 +226,17 @@ exception, instead of calling exit.
     def _get_formatter(self):
         return CLIHelpFormatter(prog=self.prog)
 
-def seed_from_command_line(argv):
-    """Find the value of option '--seed' before the actual parsing
+class SeedAction(argparse.Action):
+    """Option '--seed': seed the random generator as soon as it is parsed
 
 Graph arguments are built while the command line is parsed, therefore
-the random generator must be seeded before the parsing starts.
-Returns `None` when there is no (valid) seed on the command line."""
-    seedparser = argparse.ArgumentParser(add_help=False)
-    seedparser.add_argument('--seed', '-S', type=int, default=None)
-    try:
-        with open(os.devnull, 'w') as devnull:
-            with redirect_stderr(devnull):
-                args, _ = seedparser.parse_known_args(argv)
-    except SystemExit:
-        return None
-    return args.seed
+the random generator must be seeded before the parser reaches them.
+The option belongs to the main parser, which handles it before the
+formula and its graph arguments, however the option is spelled
+(`--seed 5`, `--seed=5`, `--se 5`, `-S5`, `-qS 5`, ...)."""
+    def __call__(self, parser, namespace, values, option_string=None):
+        setattr(namespace, self.dest, values)
+        random.seed(values)
 
 
 def positive_int(value):
